@@ -1,5 +1,7 @@
 """child process for C13 hook traces: runs localmaxlabel from the IMAGED11_VERIF (hooks) build on the images of an
-npz file, one trace file per (image, thread count).  usage: c13_hooks_child.py <cases.npz> <outdir>"""
+npz file, one trace file per (image, thread count); the thread counts of image k are in `threads_k`.
+The requested thread count is read back (exit code 3 when it did not take effect).
+usage: c13_hooks_child.py <cases.npz> <outdir>"""
 import sys, os
 import numpy as np
 
@@ -11,8 +13,13 @@ def main():
     names = cases["names"]
     for k, name in enumerate(names):
         img = cases["img_%d" % k]
-        for nt in cases["threads"]:
+        for nt in cases["threads_%d" % k]:
             cImageD11.cimaged11_omp_set_num_threads(int(nt))
+            got = cImageD11.cimaged11_omp_get_max_threads()
+            if got != int(nt):
+                sys.stderr.write("cimaged11_omp_set_num_threads(%d) did not take effect: cimaged11_omp_get_max_threads() = %d\n"
+                                 % (int(nt), got))
+                sys.exit(3)
             path = os.path.join(outdir, "trace_%d_%d.txt" % (k, int(nt)))
             os.environ["IMAGED11_VERIF_TRACE"] = path
             lab = np.full(img.shape, -7, np.int32)
